@@ -98,8 +98,11 @@ def diff_case(src, inputs, mode, feats, fname='f', keep_modules=False):
         res['detail'] = 'conversion failed inside the call wrapper (fell back to unconverted): %s' % fb.records[0]
         res['input'] = a
         return res
-      if o['kind'] == 'timeout':
+      if o['kind'] in ('timeout', 'overflow'):
         res['ref_timeouts'] = res.get('ref_timeouts', 0) + 1
+        continue
+      if c['kind'] == 'timeout':
+        res['watchdog_inconclusive'] = res.get('watchdog_inconclusive', 0) + 1
         continue
       res['runs'] += 1
       res['log_events'] += len(o['log'])
